@@ -227,6 +227,9 @@ where
                     );
                     content.add(event_item.clone(), ts);
                     Some((window, content))
+                } else if window.open > event_time {
+                    // not opened yet (width < slide): keep it until it closes
+                    Some((window, content))
                 } else {
                     debug!(
                         "Scheduling for Eviction [{:?},{:?})",
@@ -273,6 +276,8 @@ where
         let updated = self.active_windows.clone().into_iter().filter_map(|(window, mut content)| {
             if window.open <= event_time && event_time < window.close {
                 content.add_probabilistic(occurrence.clone());
+                Some((window, content))
+            } else if window.open > event_time {
                 Some((window, content))
             } else {
                 None
